@@ -47,6 +47,9 @@ FINDINGS = {
                 "`f'{x = }'` -> `f'{x =}'`", "f'{x = }'\n"),
     "C17-F13": ("a backslash-newline that continues a subprocess *word* (`echo a\\<newline>b` is the single argument `ab`) gets an indent "
                 "inserted after it, splitting the word into two arguments", "echo a\\\nb\n"),
+    "C17-F14": ("on a command line that the line heuristic takes for Python, the indent of a backslash-continuation line is rescaled "
+                "relative to the file's indent width and can round to nothing (`curl\\<newline> x` in a file indented by 8): the continued "
+                "word is glued to the previous one", "if a:\n        b\ncurl\\\n x\n"),
 }
 
 
@@ -128,22 +131,45 @@ def edit_finding(d):
             return "C17-F08"
         if rule == "continuation-indent" and shape == "insert":
             return "C17-F13"
+        if rule == "continuation-indent" and shape == "remove" and nxt is not None and not formatter_sees_subproc(_line_of(d, nxt)):
+            return "C17-F14"
     return None
 
 
 def _selfdoc_gap(d):
-    """the gap touches the `=` of a self-documenting field `{expr = }` / `{expr = !r}` / `{expr = :spec}`"""
+    """the gap lies inside a self-documenting replacement field `{expr = }` / `{expr = !r}` /
+    `{expr = :spec}` (every blank between the braces is part of the produced text)"""
     xtok = A._mods()
     toks = d["toks"]
-    for t in (d["prev"], d["next"]):
-        if t is None or t.type != xtok.OP or t.string != "=":
-            continue
-        j = t.i + 1
-        if j < len(toks):
-            n = toks[j]
-            if (n.type == xtok.OP and n.string in ("}", ":")) or (n.type == xtok.ERRORTOKEN and n.string == "!"):
-                return True
-    return False
+    t = d["next"] if d["next"] is not None else d["prev"]
+    if t is None or not t.fdepth:
+        return False
+    depth = len(t.brk)
+    if d["next"] is not None and d["next"].type == xtok.OP and d["next"].string in A.CLOSERS:
+        depth = len(t.brk)          # the closer still sees its own opener on the stack
+    # walk forward to the `}` that closes the innermost enclosing `{` of this f-string field
+    want = None
+    for k in range(len(t.brk) - 1, -1, -1):
+        if t.brk[k] == "{":
+            want = k
+            break
+    if want is None:
+        return False
+    j = t.i
+    while j < len(toks):
+        n = toks[j]
+        if n.type == xtok.OP and n.string == "}" and len(n.brk) == want + 1:
+            break
+        if len(n.brk) == want + 1 and ((n.type == xtok.OP and n.string == ":") or (n.type == xtok.ERRORTOKEN and n.string == "!")):
+            break
+        j += 1
+    if j >= len(toks) or j == 0:
+        return False
+    j -= 1
+    while j > 0 and toks[j].type == xtok.ERRORTOKEN and not toks[j].string.strip():
+        j -= 1          # the tokenizer reports a blank before `!` as an ERRORTOKEN
+    p = toks[j]
+    return p.type == xtok.OP and p.string == "=" and len(p.brk) == want + 1
 
 
 def classify(kind, sig, det, open_ids):
